@@ -121,6 +121,13 @@ func (w *World) verifyUnit(u *Unit) *Exec {
 				}
 				e.succNamed[m[1]] = true
 			}
+			for _, m := range callsRe.FindAllStringSubmatch(t, -1) {
+				if e.callsNamed == nil {
+					e.callsNamed = map[string]bool{}
+				}
+				e.callsNamed[m[1]] = true
+				st.heap[e.callsCounter(m[1])] = "0"
+			}
 			for _, m := range calledRe.FindAllStringSubmatch(t, -1) {
 				if e.calledNamed == nil {
 					e.calledNamed = map[string]bool{}
@@ -176,7 +183,11 @@ func (w *World) verifyUnit(u *Unit) *Exec {
 				envk := &SpecEnv{e: e, fr: fr, st: rs, old: fr.entry, vars: v2, oldVars: fr.params, results: fr.retVals[k]}
 				for _, c := range u.FC.Ensures {
 					f := e.specBool(envk, c)
-					e.sc.oblig(rs.reach, f, fmt.Sprintf("%s#post.%s@exit%d", u.Name, c.Label, k+1), "post", fmt.Sprintf("postcondition at return %d: %s", k+1, c.Text), fmt.Sprintf("%s:%d", strings.TrimPrefix(c.File, w.RepoDir+"/"), c.Line))
+					at := ""
+					if k < len(fr.retPos) {
+						at = " (" + e.pos(fr.retPos[k]) + ")"
+					}
+					e.sc.oblig(rs.reach, f, fmt.Sprintf("%s#post.%s@exit%d", u.Name, c.Label, k+1), "post", fmt.Sprintf("postcondition at return %d%s: %s", k+1, at, c.Text), fmt.Sprintf("%s:%d", strings.TrimPrefix(c.File, w.RepoDir+"/"), c.Line))
 				}
 			}
 		} else {
